@@ -42,7 +42,8 @@ RULE = ('A generated chain (6..20 blocks, transactions concentrated on few scrip
         'only where its stated precondition holds for the generated database (computed from the '
         'rows, counted otherwise). Non-trivial = some script hash had >= 3 rows before and >= 2 '
         'after, or an interruption with 0 < cursor < 65536, and blocks were indexed after '
-        'compaction.')
+        'compaction.' 
+        'extend_die operation: the server indexes further blocks, flushes history only and dies at its next flush, so the next program to open the directory (tool, batch, server) finds the history DB ahead of the UTXO DB; the model stands at the committed height until a server has caught up.')
 ASSUMPTIONS = ['LevelDB batch atomicity', 'max_hist_row_entries is not persisted: the harness sets '
                'it on every History instance the tool or the server creates']
 BUDGET_S = {'quick': 140, 'thorough': 3300}
